@@ -9,7 +9,12 @@ Next == /\ l <= Len(Tr) /\ l' = l + 1
            /\ seg' = IF e.ev = "cfg" THEN e.id ELSE seg
            /\ obs' = CASE e.ev = "cfg" -> O!ObsInit(e.cf)
                        [] e.ev = "tick" -> O!ObsTick(obs, e.n)
-                       [] e.ev = "allow" -> O!ObsAllow(obs, e.c, e.res, e.solo)
+                       [] e.ev = "allow" ->
+                            LET o1 == O!ObsAllow(obs, e.c, e.res, e.solo)
+                            IN \* system level: "excess requests get 429 and are not forwarded"
+                               IF "fwd" \in DOMAIN e /\ ((~e.res /\ e.fwd) \/ (~e.res /\ e.status # 429))
+                               THEN [o1 EXCEPT !.viol = @ \o <<O!V("LimitedButForwarded", e.c, IF e.fwd THEN "dispatched" ELSE "status")>>]
+                               ELSE o1
                        [] OTHER -> O!Q(obs)
 Report == obs.viol = <<>> \/ PrintT("VIOL " \o ToJson([line |-> l - 1, seg |-> seg, v |-> obs.viol]))
 Consumed == TLCGet("stats").diameter - 1 = Len(Tr)
